@@ -14,6 +14,7 @@ import (
 	"sort"
 	"strings"
 	"sync"
+	"sync/atomic"
 
 	admissionv1 "k8s.io/api/admission/v1"
 	admregv1 "k8s.io/api/admissionregistration/v1"
@@ -427,10 +428,27 @@ func (e *env) usage(name string) *usageActor {
 	}
 	actor := "usage:" + name
 	c := e.w.Client(actor)
-	mgr := xrk.NewManager(e.w, c)
+	mgr := xrk.NewManager(e.w, &replayGuard{Client: c})
 	ua := &usageActor{actor: actor, name: name, c: c, r: usagectrl.NewReconciler(mgr, usagectrl.WithLogger(logging.NewNopLogger()))}
 	e.usages[name] = ua
 	return ua
+}
+
+// replayGuard intercepts the one Delete the usage controller ever issues for an object that is
+// not a Usage: the replay of a recorded deletion, which the controller fires from a goroutine
+// after a fixed sleep. The harness counts and drops it (the world it would hit is usually gone by
+// then); what the replay presupposes - the in-use label gone only with the last Usage - is judged
+// by the store oracles.
+type replayGuard struct{ client.Client }
+
+var replaysIntercepted atomic.Int64
+
+func (g *replayGuard) Delete(ctx context.Context, obj client.Object, opts ...client.DeleteOption) error {
+	if obj.GetObjectKind().GroupVersionKind().Kind != "Usage" {
+		replaysIntercepted.Add(1)
+		return nil
+	}
+	return g.Client.Delete(ctx, obj, opts...)
 }
 
 // reconcile runs one reconcile of the named Usage; an injected crash ends it quietly.
@@ -456,7 +474,7 @@ func (e *env) compose(c *sim.Client, us usageSpec) error {
 	cd := composed.New()
 	cd.SetUnstructuredContent(obj)
 	var xrUID types.UID
-	if o := e.w.GetObj(sim.Key{Group: xrGK.Group, Kind: xrGK.Kind, Name: us.Owner}); o != nil {
+	if o := e.w.GetObj(ownerKey(us.Owner)); o != nil {
 		xrUID = types.UID(sim.Str(o, "metadata", "uid"))
 	}
 	a := xpresource.NewAPIPatchingApplicator(c)
